@@ -22,6 +22,7 @@ import sys
 sys.path.insert(0, os.path.dirname(os.path.dirname(os.path.abspath(__file__))))
 import vlib
 import probe
+import builtin_mean
 from pdmesh_common import split
 
 PROP = "C05"
@@ -54,6 +55,9 @@ def run(chk, args):
         chk.design_violation(r, "Orientation")
     if args.replay:
         scen = [json.load(open(args.replay))["detail"]["scenario"]]
+        if "kind" not in scen[0]:            # a sizes-at-view-angle scenario (MeanTrace)
+            builtin_mean.run(chk, PROP, scen, "replay")
+            return
     else:
         rng = random.Random(chk.seed)
         models = oriented_models()
@@ -114,15 +118,26 @@ def run(chk, args):
                 chk.case([e["model"], e["law"], e["a"]], nontrivial=True, sample={"model": e["model"], "law": e["law"]})
     finally:
         shutil.rmtree(work, ignore_errors=True)
+    if not args.replay:
+        # combined size + angle dispersity: 3..5 sizes dispersed at once at view angles away from zero (the
+        # orientation parameters then are not among the distributions the kernel loops over); the dispersed
+        # 2-D result against the per-mesh-point evaluations at the same view angles, judged by MeanTrace
+        reqs = []
+        t0 = 100000
+        for m in use:
+            reqs.append({"models": [m], "per_model": 8 if thorough else 2, "seed": chk.seed, "first_tid": t0, "style": "oriented"})
+            t0 += 10
+        builtin_mean.run(chk, PROP, reqs, "sizes-at-view-angle")
     chk.cov["rule"] = (
         "design: TLC over all 7-tuples of angle triples; replay: oriented models x random view angles from a set "
         "containing the right angles and Pythagorean angles x jitter on 0..3 angles (2-4 points, three distribution "
-        "types) x 5 detector points; symmetry scenarios per model; every event validated by OrientTrace.")
+        "types; one-point and zero-width requests must give zero jitter) x 5 detector points; symmetry scenarios per model; every event "
+        "validated by OrientTrace.  Combined size + angle dispersity: 3..5 sizes dispersed at once at non-zero view angles, "
+        "validated by MeanTrace against per-mesh-point evaluations.")
     chk.assumptions += [
         "the particle-frame function is reached through a wrapper appended to generate.make_source of the working tree "
         "(binds arguments through the same CALL_IQ_AC/ABC macro the kernel uses)",
         "symmetric shapes are compared through (sqrt(qa^2+qb^2), qc)",
-        "combined size + angle dispersity is covered by C01 (mesh) and by the jitter meshes here separately",
         "tolerances: particle-frame vector 1e-12 |q| (libm vs StrictMath), intensity 1e-9",
     ]
 
